@@ -32,6 +32,10 @@ def events():
                 ev.append(("execute", o, k, ow))
     for k in ("a", "b", "da_temp_1"):
         ev.append(("remove", k))
+    # a second reserved-looking name: two consecutive user keys sitting where the counter goes next
+    ev.append(("insert", "da_temp_2", "T1", True))
+    ev.append(("insert", "da_temp_2", "T2", False))
+    ev.append(("insert", "da_temp_3", "T2", True))
     return ev
 
 
@@ -251,7 +255,7 @@ def run(tier):
     ]
     return run.finish(
         exhaustive=True,
-        rule=f"all histories of length <= {depth} over {len(events())} events (insert x 4 keys incl. automatic and 'da_temp_1' x 2 values x allow_overwrite; execute x 2 pipelines (one reads 'a', one reads 'da_temp_1') x 4 target keys incl. the table read x allow_overwrite; remove x 3 keys) on {kinds}, merged on (model state, number of automatic names handed out)",
+        rule=f"all histories of length <= {depth} over {len(events())} events (insert x 4 keys incl. automatic and 'da_temp_1' x 2 values x allow_overwrite, plus inserts under 'da_temp_2' / 'da_temp_3'; execute x 2 pipelines (one reads 'a', one reads 'da_temp_1') x 4 target keys incl. the table read x allow_overwrite; remove x 3 keys) on {kinds}, merged on (model state, number of automatic names handed out)",
     )
 
 
